@@ -3,6 +3,7 @@ package plush
 import (
 	"fmt"
 	"strings"
+	"sync"
 
 	"github.com/gobuffalo/plush/v5/ast"
 	"github.com/gobuffalo/plush/v5/helpers/hctx"
@@ -39,6 +40,10 @@ func (h HelperContext) Block() (string, error) {
 	return h.BlockWith(h.Context)
 }
 
+// failedStmtMoot guards the hand-over of the failing statement from a block's
+// evaluator to the evaluator of the execution that created the block
+var failedStmtMoot sync.Mutex
+
 // BlockWith executes the block of template associated with
 // the helper, think the block inside of an "if" or "each"
 // statement, but with it's own context.
@@ -56,13 +61,15 @@ func (h HelperContext) BlockWith(hc hctx.Context) (string, error) {
 	// stored by contentFor may be replayed long after the execution that stored
 	// it, and from several goroutines at once, so that execution's evaluator
 	// (its scope pointer in particular) must not be touched
-	ev := *h.compiler
-	ev.ctx = ctx
+	ev := compiler{ctx: ctx, program: h.compiler.program}
 
 	i, err := ev.evalBlockStatement(h.block)
 	if err != nil {
 		// the statement that failed is the one the error is reported at
+		// (several replays of a stored block may fail at the same time)
+		failedStmtMoot.Lock()
 		h.compiler.curStmt = ev.curStmt
+		failedStmtMoot.Unlock()
 		return "", err
 	}
 
